@@ -67,6 +67,16 @@ Theorem C12_species_roundtrip : forall (F : Type) (parse_float : str -> option F
 Proof. exact species_roundtrip. Qed.
 Print Assumptions C12_species_roundtrip.
 
+(* ... and a reaction: its equation travels as Reaction.to_string() and reads back with the same coefficient for every species and
+   the same orders (so the constants' dimension check passes), its label, constants and units system as for a species *)
+Theorem C12_reaction_roundtrip : forall (F : Type) (parse_float : str -> option F) (print_float : F -> str) (zero : F),
+  (forall x, parse_float (print_float x) = Some x) -> (forall x, existsb is_space (print_float x) = false) ->
+  (forall x, print_float x <> nil) ->
+  forall parent (r : reaction_obj F), wf_reaction F r ->
+  exists r', read_reaction F parse_float zero parent (write_reaction F print_float wr r) = Ok r' /\ reaction_equiv F r r'.
+Proof. exact reaction_roundtrip. Qed.
+Print Assumptions C12_reaction_roundtrip.
+
 (* what the writers put into the dictionaries reads back: every quantity is written as str(UnitValue) (C18) ... *)
 Theorem C12_quantity_text : forall (F : Type) (parse_float : str -> option F) (print_float : F -> str) (zero : F),
   (forall x, parse_float (print_float x) = Some x) -> (forall x, existsb is_space (print_float x) = false) ->
